@@ -24,6 +24,10 @@ const BANG: &[&str] = &[
 const CONSTS: &[&str] = &[
     "x = 2\n.r = ({ x = 0; 10 } / x)", "x = 2\n.r = (10 / { x = 0; x })", "x = 2\nif .a == true { x = 0 }\n.r = (10 / x)", "x = 2\n{ x = 0 }\n.r = (10 / x)",
     "x = 1\nfor_each([1]) -> |_i, _v| { x = 0 }\n.r = (10 / x)", "x = true\n.r = ({ x = false; true } && x)", "x = false\n.r = ({ x = true; false } || x)",
+    // the constant itself as a root expression (judged by the constant clause of C12)
+    "if .a == true { x = 2 } else { x = 0 }\nx", "if .a == true { x = 2 } else { x = 0 }\n.r = (10 / x)", "x = 2\nif .a == true { x = 0 }\nx",
+    "x = \"a\"\nif .a == true { x = \"b\" }\nx", "x = 1\n(.a == true) && { x = 3; true }\nx", "x = 1\n(.a == true) || { x = 3; true }\nx",
+    "x = 1\ny = (to_int(.s) ?? { x = 5; 0 })\nx", "x = true\nif .a == true { x = false }\n.r = (x || { .side = 1; true })", "x = 2\n{ x = 0 }\nx",
     "x = 3\ny = x\nx = 0\n.r = (10 / y)", "x = 2.0\n.r = ({ x = 0.0; 1.0 } / x)", "x = {\"a\": 2}\nx.a = 0\n.r = (10 / x.a)", "x = [2]\nx[0] = 0\n.r = (10 / x[0])",
 ];
 
